@@ -1204,8 +1204,15 @@ def build_src_case(ctx, idx):
     typ, typ_spell = spell_type(rv, seg_type)
     descr.update(memory=mem, type_spelling=typ_spell)
 
+    ts, workers = encoding_variant(ctx, 'src', idx, seg_type, rows * cols)
+    descr.update(transfer_syntax=ts, workers=workers)
+
     def mk():
-        seg = hd.seg.Segmentation(src, passed, typ, [seg_description(i + 1) for i in range(nseg)], omit_empty_frames=omit, **_seg_kw())
+        import warnings
+        with warnings.catch_warnings():
+            warnings.simplefilter('ignore')             # workers with a native syntax: documented warning, no effect
+            seg = hd.seg.Segmentation(src, passed, typ, [seg_description(i + 1) for i in range(nseg)], omit_empty_frames=omit,
+                                      **encoding_kw(ts, workers), **_seg_kw())
         if not np.array_equal(passed, arr):
             raise AssertionError('the constructor modified the pixel array it was given')
         return seg
@@ -1225,7 +1232,8 @@ def check_src_case(ctx, descr, geo, arr, mk, src, reqs, pending):
     hkey = dict(stream='src', type=seg_type, omit=descr['omit'], empties=descr['empties'], exact=exact, layout=layout,
                 n0=descr['n'], order=descr['order_mode'], source=descr['kind'], gaps=descr.get('gaps', False),
                 memory=descr.get('memory'), type_spelling=descr.get('type_spelling'), square=descr['rows'] == descr['cols'],
-                thin_slices=abs(F(descr['slice_spacing'])) < F(1, 4))
+                thin_slices=abs(F(descr['slice_spacing'])) < F(1, 4), transfer_syntax=descr.get('transfer_syntax'),
+                workers=str(descr.get('workers')))
     st, seg = _fetch(mk)
     if st != 'ok':
         ctx.case(outcome='construct-refused', **hkey)
@@ -1415,7 +1423,7 @@ def build_img_case(ctx, idx):
         if kind == 'multiframe':
             import copy as _copy
             rg = ctx.rng('imggroups', idx)
-            groups = rg.choice(['shared', 'shared', 'per-frame', 'orientation-per-frame', 'measures-per-frame', 'both'])
+            groups = rg.choice(['shared', 'per-frame', 'per-frame', 'orientation-per-frame', 'measures-per-frame', 'measures-per-frame', 'both'])
             sh = ds.SharedFunctionalGroupsSequence[0]
             if groups in ('per-frame', 'orientation-per-frame', 'both'):
                 for f in ds.PerFrameFunctionalGroupsSequence:
@@ -1427,7 +1435,7 @@ def build_img_case(ctx, idx):
                     f.PixelMeasuresSequence = _copy.deepcopy(sh.PixelMeasuresSequence)
                 if groups != 'both':
                     del sh.PixelMeasuresSequence
-            if groups in ('per-frame', 'orientation-per-frame', 'measures-per-frame') and n >= 2 and rg.random() < 0.3:
+            if groups in ('per-frame', 'orientation-per-frame', 'measures-per-frame') and n >= 2 and rg.random() < 0.5:
                 k = rg.randrange(n)             # also the first and the last frame
                 fk = ds.PerFrameFunctionalGroupsSequence[k]
                 if groups != 'orientation-per-frame' and (groups == 'measures-per-frame' or rg.random() < 0.5):
